@@ -58,6 +58,16 @@ def NVar.rawName : NVar → String
 
 def NVar.name (v : NVar) : String := escapeBase v.rawName
 
+/-- insertion into a list sorted by Python's tuple order -/
+def insertMut (x : Mut) : List Mut → List Mut
+  | [] => [x]
+  | y :: ys => if x.lt y then x :: y :: ys else y :: insertMut x ys
+
+/-- the order in which `solve_minor_model` walks the considered variants: `sorted(mutations)` when
+the source sorts them (`Const.MINOR_MUTATIONS_SORTED`, regenerated), else the caller's order -/
+def constructionOrder (muts : List Mut) : List Mut :=
+  if Const.MINOR_MUTATIONS_SORTED then muts.foldl (fun acc x => insertMut x acc) [] else muts
+
 structure MinorInst where
   gene : GeneView
   cov : Cov                                   -- filtered coverage handed to `solve_minor_model`
